@@ -17,6 +17,10 @@ def bufSize : Nat := 4096
 /-- lines of one datagram (UDP and Unixgram): every piece counts, also empty ones -/
 def datagramLines (p : Bytes) : List Bytes := splitOn lf p
 
+/-- the `RelayLine` calls `HandlePacket`/`HandleConn` make for the lines of one packet or connection when a relay is
+    attached: `if l.Relay != nil && len(line) > 0 { l.Relay.RelayLine(line) }`, in line order, before the line is parsed -/
+def relayCallsOf (lines : List Bytes) : List Bytes := lines.filter (!·.isEmpty)
+
 /-! ### UDP packet queue -/
 
 structure UdpQ where
